@@ -17,6 +17,9 @@ import XpDriver.C16
 import XpDriver.C17
 import XpDriver.C01
 import XpDriver.C04
+import XpDriver.C14
+import XpDriver.C15
+import XpDriver.C18
 open Lean Xp Xp.Proto
 
 def dispatch (op : String) (j : Json) : R Json :=
@@ -62,6 +65,14 @@ def dispatch (op : String) (j : Json) : R Json :=
   | "kleor" => Ops.kleor j
   | "c01" => Ops.c01 j
   | "c04" => Ops.c04 j
+  | "causal" => Ops.causal j
+  | "mufid" => Ops.mufid j
+  | "spearman" => Ops.spearman j
+  | "gridmask" => Ops.gridmask j
+  | "stab" => Ops.stab j
+  | "proto_run" => Ops.protoRun j
+  | "proto_objs" => Ops.protoObjs j
+  | "proto_local" => Ops.protoLocal j
   | _ => throw "bad-op"
 
 def step (line : String) : String :=
